@@ -289,7 +289,57 @@ pub fn c06_re_transparent_dual() {
     cover!(true);
 }
 
+
+/// the real part of the dual result is bit for bit the std function of the real part. Under Kani
+/// the evaluation point is concrete and libm is uninterpreted (a real part computed through another
+/// function, e.g. ln(1+x) for ln_1p(x), is a different uninterpreted value); the native replay
+/// additionally walks a list of probe points with the real libm.
+macro_rules! re_is_float_harness {
+    ($name:ident, [$($stub:meta),*], [$($m:ident),*]) => {
+        #[cfg_attr(kani, kani::proof)]
+        #[cfg_attr(kani, kani::unwind(12))]
+        $( #[cfg_attr(kani, $stub)] )*
+        pub fn $name() {
+            #[cfg(kani)]
+            let points = [0.5f64];
+            #[cfg(not(kani))]
+            let points = [0.5f64, 1e-10, -1e-10, 0.3, -0.2, 1e-3, 3e-11, 1.5];
+            for &x in points.iter() {
+                let a = Dual64::new(x, 1.0);
+                let h = HyperDual64::new(x, 1.0, 1.0, 0.0);
+                $(
+                    let want = uf::$m(x);
+                    let (ga, gh) = (DualNum::$m(&a).re, DualNum::$m(&h).re);
+                    assert!(same64(ga, want) || (ga.is_nan() && want.is_nan()));
+                    assert!(same64(gh, want) || (gh.is_nan() && want.is_nan()));
+                )*
+            }
+            cover!(true);
+        }
+    };
+}
+re_is_float_harness!(c06_re_is_float_a,
+    [kani::stub(f64::sin_cos, uf::sin_cos), kani::stub(f64::asin, uf::asin), kani::stub(f64::acos, uf::acos)],
+    [sin, cos, asin, acos]);
+re_is_float_harness!(c06_re_is_float_b,
+    [kani::stub(f64::atan, uf::atan), kani::stub(f64::sinh, uf::sinh), kani::stub(f64::cosh, uf::cosh)],
+    [atan, sinh, cosh]);
+re_is_float_harness!(c06_re_is_float_c,
+    [kani::stub(f64::asinh, uf::asinh), kani::stub(f64::acosh, uf::acosh), kani::stub(f64::atanh, uf::atanh)],
+    [asinh, acosh, atanh]);
+re_is_float_harness!(c06_re_is_float_d,
+    [kani::stub(f64::exp, uf::exp), kani::stub(f64::exp_m1, uf::exp_m1), kani::stub(f64::ln, uf::ln), kani::stub(f64::ln_1p, uf::ln_1p)],
+    [exp, exp_m1, ln, ln_1p]);
+re_is_float_harness!(c06_re_is_float_e,
+    [kani::stub(f64::ln, uf::ln_c), kani::stub(f64::exp2, uf::exp2), kani::stub(f64::log2, uf::log2), kani::stub(f64::log10, uf::log10), kani::stub(f64::cbrt, uf::cbrt)],
+    [exp2, log2, log10, cbrt]);
+
 pub const LIST: &[(&str, fn())] = &[
+    ("c06_re_is_float_a", c06_re_is_float_a),
+    ("c06_re_is_float_b", c06_re_is_float_b),
+    ("c06_re_is_float_c", c06_re_is_float_c),
+    ("c06_re_is_float_d", c06_re_is_float_d),
+    ("c06_re_is_float_e", c06_re_is_float_e),
     ("c06_cmp_dual64", c06_cmp_dual64),
     ("c06_cmp_dual32", c06_cmp_dual32),
     ("c06_cmp_dual2_64", c06_cmp_dual2_64),
